@@ -99,3 +99,11 @@ func decodeEntities(s string) (string, bool) {
 }
 
 var errVerifWrite = errors.New("verif: injected write failure")
+
+func verifMustCompileNoCheck(srcs ...string) *Tofu {
+	t, err := verifCompileNoCheck(srcs...)
+	if err != nil {
+		verifAssert(false, "harness template does not compile: "+err.Error())
+	}
+	return t
+}
